@@ -135,8 +135,12 @@ def huber1 (delta a : α) : α :=
 def huberSep (cplx : Bool) (delta : α) (x : Arg α) : α :=
   ((mags cplx x.flat).map (huber1 delta)).sum
 
-/-- `HuberNorm._call_nonsep` (`lax.cond(xl2 <= δ, …)`) -/
-def huberNonsep (cplx : Bool) (delta : α) (x : Arg α) : α := huber1 delta (l2 cplx x)
+/-- `HuberNorm._call_nonsep`: `xl2sq = sum(|x|²)`; `lax.cond(sqrt(xl2sq) <= δ, 0.5·xl2sq, δ·(sqrt(xl2sq) − δ/2))`
+    (both branches are functions of the squared norm) -/
+def huberNonsep (cplx : Bool) (delta : α) (x : Arg α) : α :=
+  let s := (sqmags cplx x.flat).sum
+  let n := HasSqrt.sqrt s
+  if leR n delta then (1 / (1 + 1)) * s else delta * (n - delta / (1 + 1))
 
 end norms
 
